@@ -310,18 +310,22 @@ class TU:
         for d in self.anon:
             if d.get('kind') == 'VarDecl' and d.get('constexpr'):
                 self._reg_const(d)
-            elif d.get('kind') == 'FunctionDecl' and self._has_body(d):
-                # file-local helper function in the anonymous namespace of the TU: a free function of the component.
-                # The two AST dumps come from two clang runs, so calls are resolved by NAME (overloads are refused).
-                if d['name'] in self.anon_funcs:
-                    die('overloaded file-local function %s' % d['name'], d)
-                self._collect_func(d, [])
-                self.anon_funcs[d['name']] = d['id']
         for d in self.docs:
             if d.get('id') in seen_doc_ids:
                 continue
             seen_doc_ids.add(d.get('id'))
             self._collect(d, [])
+        for d in self.anon:
+            if d.get('kind') == 'FunctionDecl' and self._has_body(d):
+                # file-local helper function in the anonymous namespace of the TU: a free function of the component.
+                # The two AST dumps come from two clang runs, so calls are resolved by NAME (overloads are refused).
+                # An anonymous namespace nested in dbgroup:: shows up in both dumps: it is already collected then.
+                if any(f.cname == cident(d['name']) and f.cls is None for f in self.func_order):
+                    continue
+                if d['name'] in self.anon_funcs:
+                    die('overloaded file-local function %s' % d['name'], d)
+                self._collect_func(d, [])
+                self.anon_funcs[d['name']] = d['id']
 
     def _reg_const(self, d):
         name = d['name']
@@ -1142,6 +1146,17 @@ class Emitter:
 
     def addr(self, e):
         """C expression for the address of glvalue e"""
+        u = self.unwrap(e, keep_materialize=True)
+        if u.get('kind') == 'MaterializeTemporaryExpr' and self.temp_ctx is not None and u.get('inner'):
+            inner = self.unwrap(u['inner'][0])
+            if inner.get('kind') in ('CallExpr', 'CXXMemberCallExpr', 'CXXOperatorCallExpr'):
+                # a member function called on a prvalue (f().g()): the temporary is materialised for the full expression
+                ct = self.ctype(u)
+                name = self.fresh('verif_tmp')
+                self.temp_ctx['pre'].append('%s %s = %s;' % (ct, name, self.expr(inner)))
+                if ct in self.NEEDS_TEMP_DTOR:
+                    self.temp_ctx['post'].insert(0, '%s_dtor(&%s); /* temporary destroyed at the end of the full expression */' % (ct, name))
+                return '&' + name
         s = self.expr(e)
         if s.startswith('(*') and s.endswith(')') and self._balanced(s[2:-1]):
             return s[2:-1]
@@ -1416,6 +1431,8 @@ class Emitter:
             if at == 'weak_ptr_size':
                 # move/copy construction from a weak_ptr prvalue/xvalue: value semantics
                 return self.expr(a)
+        if ct == 'shared_ptr_size' and not args:
+            return 'shared_ptr_size_default()'
         if ct == 'shared_ptr_size' and len(args) == 1:
             ctype_str = e.get('ctorType', {}).get('qualType', '')
             a = args[0]
